@@ -4,12 +4,14 @@
 //   T <op>... Q <query>...
 //     op    = +<method>:<resource-hex>:<handler-id>   addRoute
 //             -<method>:<resource-hex>                removeRoute
+//             N                                       install a not-found handler (answers 404 with a running count)
 //     query = <method>:<path-hex>
 // Output: T <ok|throw per op> Q <M<h>(name=value,..)[splat,..] | 405(m,..) | 404 per query>
 #include <pistache/endpoint.h>
 #include <pistache/router.h>
 
 #include <algorithm>
+#include <atomic>
 #include <set>
 
 #include "pv_net.h"
@@ -29,9 +31,20 @@ static std::string handle(const std::string& line)
     os << "T";
     std::set<std::string> names;
     size_t i = 1;
+    auto nf_count = std::make_shared<std::atomic<int>>(0);
     for (; i < t.size() && t[i] != "Q"; ++i)
     {
         const std::string& op = t[i];
+        if (op == "N")
+        {
+            // a not-found handler: must run exactly once for a request no route of any method matches
+            Rest::Routes::NotFound(router, [nf_count](const Rest::Request&, Http::ResponseWriter resp) {
+                int n = ++*nf_count;
+                resp.send(Http::Code::Not_Found, "NF" + std::to_string(n));
+                return Rest::Route::Result::Ok;
+            });
+            continue;
+        }
         auto c1               = op.find(':');
         auto c2               = op.find(':', c1 + 1);
         int method            = atoi(op.substr(1, c1 - 1).c_str());
@@ -96,6 +109,7 @@ static std::string handle(const std::string& line)
     server.serveThreaded();
     uint16_t port = server.getPort();
     int fd        = pv::connect_loopback(port);
+    int nf_seen   = 0;
     for (++i; i < t.size(); ++i)
     {
         auto c1          = t[i].find(':');
@@ -139,6 +153,13 @@ static std::string handle(const std::string& line)
             for (size_t k = 0; k < ms.size(); ++k)
                 os << (k ? "," : "") << ms[k];
             os << ")";
+        }
+        else if (r.code == 404 && r.body.rfind("NF", 0) == 0)
+        {
+            // the handler's running count must have advanced by exactly one since the last such answer
+            int n = atoi(r.body.c_str() + 2);
+            os << (n == nf_seen + 1 ? " 404nf" : " 404nf-count" + std::to_string(n - nf_seen));
+            nf_seen = n;
         }
         else
             os << " " << r.code;
